@@ -1011,6 +1011,15 @@ func main() {
 			rn.concurrentRound(round, w)
 		}(round, w)
 	}
+	// big-batch round (bigbatch.go): one log record of several MiB, kill before any flush
+	{
+		w := <-sem
+		wg.Add(1)
+		go func(w int) {
+			defer func() { sem <- w; wg.Done() }()
+			rn.bigBatchRound(w)
+		}(w)
+	}
 	wg.Wait()
 	c.Extra("crash_cases_planned", totalCases)
 	c.Finish()
